@@ -351,4 +351,115 @@ theorem singleIdent_of_confInv {m : AstMap} (h : ConfInv m) (hc : m.hasConflicts
       rw [hc] at this; cases this
   · simp [hk]
 
+/-! ### the embedding checker only grows with the map -/
+
+/-- `m` answers every query `a` answers, the same way -/
+structure Ext (a m : AstMap) : Prop where
+  maps : ∀ k v, dictGet k a.mappings = some v → dictGet k m.mappings = some v
+  exps : ∀ k, (dictGet k a.exps).isSome → (dictGet k m.exps).isSome
+  binds : ∀ x ∈ a.binds, x ∈ m.binds
+
+theorem Ext.refl (a : AstMap) : Ext a a := ⟨fun _ _ h => h, fun _ h => h, fun _ h => h⟩
+
+theorem Ext.trans {a b c : AstMap} (h1 : Ext a b) (h2 : Ext b c) : Ext a c :=
+  ⟨fun k v h => h2.maps k v (h1.maps k v h), fun k h => h2.exps k (h1.exps k h),
+   fun x h => h2.binds x (h1.binds x h)⟩
+
+theorem hasBind_mono {a m : AstMap} (h : Ext a m) {k x : String} (hb : hasBind a k x = true) :
+    hasBind m k x = true := by
+  simp only [hasBind, List.any_eq_true] at hb ⊢
+  obtain ⟨b, hb1, hb2⟩ := hb
+  exact ⟨b, h.binds b hb1, hb2⟩
+
+theorem nodeOk_mono {a m : AstMap} (h : Ext a m) {p s : T} (hn : nodeOk a p s = true) :
+    nodeOk m p s = true := by
+  simp only [nodeOk, Bool.and_eq_true] at hn ⊢
+  refine ⟨hn.1, ?_⟩
+  have h2 := hn.2
+  split at h2
+  · rename_i hi; simp only [hi]; exact h2
+  · rename_i f hi
+    simp only [hi]
+    simp only [Bool.or_eq_true, Bool.and_eq_true] at h2 ⊢
+    rcases h2 with ((h2 | h2) | h2) | h2
+    · exact Or.inl (Or.inl (Or.inl ⟨h2.1, hasBind_mono h h2.2⟩))
+    · exact Or.inl (Or.inl (Or.inr h2))
+    · exact Or.inl (Or.inr h2)
+    · exact Or.inr h2
+
+theorem embKids_mono {a m : AstMap} (h : Ext a m) (kids : List T)
+    (hIH : ∀ c ∈ kids, ∀ pp sp s, embAt a pp c sp s = true → embAt m pp c sp s = true)
+    (pp sp : Path) (s : T) (o : Bool) :
+    ∀ i mj used, embKids a pp i kids sp s o mj used = true → embKids m pp i kids sp s o mj used = true := by
+  induction kids with
+  | nil => intro i mj used _; rw [embKids]
+  | cons pc rest ih =>
+    intro i mj used hk
+    rw [embKids] at hk ⊢
+    cases hq : dictGet (pp ++ [i]) a.mappings with
+    | none => simp [hq] at hk
+    | some q =>
+      rw [hq] at hk
+      rw [h.maps _ _ hq]
+      simp only at hk ⊢
+      cases hj : q.getLast? with
+      | none => simp [hj] at hk
+      | some j =>
+        simp only [hj, Bool.and_eq_true] at hk ⊢
+        obtain ⟨⟨⟨h1, h2⟩, h3⟩, h4⟩ := hk
+        refine ⟨⟨⟨h1, h2⟩, ?_⟩, ?_⟩
+        · cases hs : s.kids[j]? with
+          | none => simp [hs] at h3
+          | some sj =>
+            simp only [hs] at h3 ⊢
+            exact hIH pc List.mem_cons_self _ _ _ h3
+        · exact ih (fun c hc => hIH c (List.mem_cons_of_mem _ hc)) _ _ _ h4
+
+theorem embAt_mono {a m : AstMap} (h : Ext a m) :
+    ∀ p pp sp s, embAt a pp p sp s = true → embAt m pp p sp s = true := by
+  intro p
+  induction p using T.induct' with
+  | h kind field flds kids ih =>
+    intro pp sp s he
+    rw [embAt] at he ⊢
+    simp only [Bool.and_eq_true, decide_eq_true_eq] at he ⊢
+    refine ⟨h.maps _ _ he.1, ?_⟩
+    have h2 := he.2
+    split at h2
+    · rename_i hr; simp only [hr]
+    · rename_i k hr; simp only [hr]; exact h.exps _ h2
+    · rename_i hr; simp only [hr]
+      exact embKids_mono h kids ih pp sp s true 0 0 [] h2
+    · rename_i hr; simp only [hr]
+      simp only [Bool.and_eq_true, Bool.or_eq_true, decide_eq_true_eq] at h2 ⊢
+      refine ⟨nodeOk_mono h h2.1, ?_⟩
+      rcases h2.2 with h3 | h3
+      · exact Or.inl h3
+      · exact Or.inr (embKids_mono h kids ih pp sp s _ 0 0 [] h3)
+
+theorem expSomewhereL_mono {a m : AstMap} (h : Ext a m) (k : String) (v : Path) (kids : List T)
+    (hIH : ∀ c ∈ kids, ∀ pp, expSomewhere a k v pp c = true → expSomewhere m k v pp c = true) (pp : Path) :
+    ∀ i, expSomewhereL a k v pp i kids = true → expSomewhereL m k v pp i kids = true := by
+  induction kids with
+  | nil => intro i hh; rw [expSomewhereL] at hh; cases hh
+  | cons t ts ih =>
+    intro i hh
+    rw [expSomewhereL] at hh ⊢
+    simp only [Bool.or_eq_true] at hh ⊢
+    rcases hh with hh | hh
+    · exact Or.inl (hIH t List.mem_cons_self _ hh)
+    · exact Or.inr (ih (fun c hc => hIH c (List.mem_cons_of_mem _ hc)) _ hh)
+
+theorem expSomewhere_mono {a m : AstMap} (h : Ext a m) (k : String) (v : Path) :
+    ∀ p pp, expSomewhere a k v pp p = true → expSomewhere m k v pp p = true := by
+  intro p
+  induction p using T.induct' with
+  | h kind field flds kids ih =>
+    intro pp hh
+    rw [expSomewhere] at hh ⊢
+    simp only [Bool.or_eq_true, Bool.and_eq_true, decide_eq_true_eq] at hh ⊢
+    rcases hh with hh | hh
+    · exact Or.inl ⟨hh.1, h.maps _ _ hh.2⟩
+    · exact Or.inr (expSomewhereL_mono h k v kids ih pp 0 hh)
+
 end Pedal.Cait
